@@ -91,6 +91,31 @@ def axiom_audit(prop_id):
         raise RuntimeError('axiom audit failed for %s:\n%s' % (prop_id, out[-3000:]))
     return res
 
+def module_closure(root_mod):
+    """project modules imported (transitively) by `root_mod`, by parsing import lines"""
+    seen = []; todo = [root_mod]
+    while todo:
+        m = todo.pop()
+        if m in seen or not m.startswith('DnsVerif'): continue
+        p = os.path.join(LEAN, *m.split('.')) + '.lean'
+        if not os.path.exists(p): continue
+        seen.append(m)
+        for line in open(p):
+            mm = re.match(r'\s*(?:public\s+)?import\s+(\S+)', line)
+            if mm: todo.append(mm.group(1))
+    return sorted(seen)
+
+def leanchecker(mods, jobs=NCPU):
+    """independent re-check of the compiled .olean files of `mods` by the toolchain's leanchecker; returns (ok, detail)"""
+    t0 = time.time()
+    groups = [mods[i::jobs] for i in range(jobs) if mods[i::jobs]]
+    procs = [subprocess.Popen(['lake', 'env', 'leanchecker'] + g, cwd=LEAN, stdout=subprocess.PIPE, stderr=subprocess.STDOUT, text=True, env=ENV) for g in groups]
+    bad = []
+    for g, pr in zip(groups, procs):
+        out, _ = pr.communicate()
+        if pr.returncode != 0: bad.append('%s: %s' % (' '.join(g)[:200], out.strip()[-300:]))
+    return not bad, {'modules': len(mods), 'seconds': round(time.time() - t0, 1), 'failures': bad}
+
 FORBIDDEN = re.compile(r'\b(sorry|admit|native_decide|bv_decide|implemented_by|unsafe)\b|^\s*axiom\s|maxHeartbeats\s+0\b', re.M)
 
 def grep_forbidden():
